@@ -60,7 +60,9 @@ RULE += (
     "networks, empty marginalize/reduce lists, zero-row frames, exact zero coefficients/intercepts/values, falsy names.  "
     "H magnitudes: `gaussmag` rescales every variable by 2^-60..2^60 with tolerances relative to the quantity's unit; "
     "networks with intercepts*2^20 and variances*2^30; magnitudes BELOW 1e-8 cannot be tested on networks because "
-    "to_joint_gaussian itself rounds to 8 decimals (reported to the coordinator as a limitation of the code as written).  "
+    "to_joint_gaussian itself rounds to 8 decimals: the `tiny` stream (variances 2^-30..2^-40, coefficient 2^-12 on variance "
+    "2^-20) requires pgmpy == the as-coded model (exact joint rounded to 8 decimals) entrywise and diagnoses the known "
+    "finding joint-gaussian-rounded-8-decimals exactly when that differs from the exact joint by > 1e-9 of the entry's unit.  "
     "I backends: not applicable (these classes are numpy only).  J variants: inplace True/False and operators * / for "
     "Gaussian and canonical forms, predict(distribution='joint'), fit(method='mle'), LinearGaussianCPD.fit(MLE|MAP), "
     "normalize, get_random, simulate (replayed with the same numpy generator).  K rejections: add_cpds(good, foreign, good) "
@@ -374,7 +376,7 @@ def cases(tier, seed):
                          [2, [jf(4), jf(-1)], jf(3), [1]]], "add_order": [0, 1, 2], "dummy": None, "dseed": 5})
     # the Coq refutation witness of the known finding canonical-marginalize-g, replayed on pgmpy
     out.append({"kind": "cwit"})
-    for _ in range(90 * k):
+    for _ in range(80 * k):
         out.append(gen_lgbn(rng))
     for _ in range(30 * k):
         out.append(gen_lgbn(rng, nmax=6, style="mixed") if rng.random() < 0.5 else gen_lgbn(rng, nmax=3))
@@ -384,7 +386,7 @@ def cases(tier, seed):
         out.append(gen_fit_index(rng))
     for _ in range(70 * k):
         out.append(gen_gauss(rng))
-    for i in range(110 * k):
+    for i in range(100 * k):
         out.append(gen_seq(rng, directed=(i % 3 == 0)))
     whats = ["no-missing", "bad-evidence", "foreign-cpd", "reduce-unknown", "multi-add", "fit-missing-col",
              "simulate-incomplete", "get-random"]
@@ -397,10 +399,16 @@ def cases(tier, seed):
         out.append(gen_lgbn(rng, nmax=5, mag=True))
     for _ in range(5 * k):
         out.append(gen_big(rng))
-    for _ in range(60 * k):
+    for _ in range(50 * k):
         out.append(gen_session(rng))
-    for _ in range(30 * k):
+    for _ in range(24 * k):
         out.append(gen_gaussmag(rng))
+    # the Coq witness of the known finding joint-gaussian-rounded-8-decimals (one node, variance ~1e-9), then random ones
+    out.append({"kind": "tiny", "n": 1, "nodes": [0], "edges": [], "style": "str", "nameseed": 3,
+                "cpds": [[0, [jf(0)], jf(Fraction(1, 2 ** 30)), []]], "add_order": [0], "dummy": None, "small": 0,
+                "mode": "variance"})
+    for _ in range(8 * k):
+        out.append(gen_tiny(rng))
     return out
 
 
@@ -675,6 +683,18 @@ def run_lgbn(case, drv):
     for c, cm_, ce_, cv_ in cpd_snap:
         if not np.array_equal(np.asarray(c.mean), cm_) or list(c.evidence) != ce_ or c.variance != cv_:
             return bad("impl!=spec:cpd-mutated", {"variable": idx[repr(c.variable)]})
+    for c, cm_, ce_, cv_ in cpd_snap:                    # LinearGaussianCPD.copy(): equal, and independent of the original
+        cp = c.copy()
+        if cp is c or repr(cp.variable) != repr(c.variable) or not np.array_equal(np.asarray(cp.mean, dtype=float), cm_) \
+                or list(cp.evidence) != ce_ or cp.variance != cv_ or list(cp.variables) != list(c.variables):
+            return bad("impl!=spec:cpd-copy", {"variable": idx[repr(c.variable)]})
+        if cp.mean is c.mean or cp.evidence is c.evidence or np.shares_memory(np.asarray(cp.mean), np.asarray(c.mean)):
+            return bad("impl!=spec:cpd-copy-shares-state", {"variable": idx[repr(c.variable)]})
+        cp.mean[...] = 123.0
+        cp.evidence.append("__x__")
+        if not np.array_equal(np.asarray(c.mean), cm_) or list(c.evidence) != ce_:
+            return bad("impl!=spec:cpd-copy-shares-state", {"variable": idx[repr(c.variable)]})
+    tags.append("cpd-copy")
     mu_keep, cov_keep = mu.copy(), cov.copy()
     mu[...] = 77.0
     cov[...] = 77.0
@@ -1172,6 +1192,18 @@ def run_gauss(case, drv):
         if r2 is not None:
             r2.mean[...] = 5.0
             r2.covariance[...] = 5.0
+        # the caller reuses its buffers / scribbles over the canonical form it was handed: the distribution is unaffected
+        da = GD([names[v] for v in vars1], arr_m, src_c)
+        cfa = da.to_canonical_factor()
+        arr_m[...] = -1.0
+        src_c[...] = 1.0
+        cfa.K[...] = 4.0
+        cfa.h[...] = 4.0
+        arr_m[...] = keep_m
+        src_c[...] = keep_c
+        if not same_gauss(da, ref) or not np.allclose(da.precision_matrix, ref.precision_matrix, rtol=1e-9, atol=1e-12) \
+                or not same_canon(da.to_canonical_factor(), ref.to_canonical_factor()):
+            return bad("impl!=spec:gaussian-arrays-aliased", {"vars": vars1})
         dn.marginalize(drop, inplace=True)
         dn.product(d2, inplace=True)
         if not np.array_equal(arr_m, keep_m) or not np.array_equal(src_c, keep_c):
@@ -1537,6 +1569,99 @@ def run_gaussmag(case, drv):
                 return b
     key = common.canon_key(["gaussmag", case["exp"], case["mean"], case["cov"], case["v2"]])
     return ok(nontrivial=True, key=key, tags=["gaussmag exp=%d" % case["exp"], "gaussmag n=%d" % n])
+
+
+
+# ------------------------------------------------------------------ known finding: 8-decimal rounding of the joint
+FINDING_ROUNDING = "joint-gaussian-rounded-8-decimals"
+
+
+def gen_tiny(rng):
+    """networks in which some exact variance / covariance entry is below 5e-9 (variance 2^-30 .. 2^-40, or a
+    coefficient 2^-12 on a variance 2^-20), every other parameter having at most 8 binary places so that the
+    8-decimal rounding is exact on the ordinary entries"""
+    n = rng.randint(1, 4)
+    nodes, edges = common.rand_dag(rng, n, p=rng.choice([0.4, 0.8]))
+    roots = [v for v in range(n) if not any(w == v for (u, w) in edges)]
+    small = rng.choice(roots) if rng.random() < 0.75 else rng.randrange(n)   # a non-root's variance is masked by its parents'
+    mode = rng.choice(["variance", "variance", "coefficient"])
+    cpds = []
+    for v in range(n):
+        pa = [u for (u, w) in edges if w == v]
+        rng.shuffle(pa)
+        mean = [Fraction(rng.randint(-8, 8), 4)] + [rng.choice([Fraction(-1), Fraction(1, 2), Fraction(1), Fraction(2)]) for _ in pa]
+        var = rng.choice([Fraction(1, 4), Fraction(1, 2), Fraction(1), Fraction(2)])
+        if v == small:
+            var = Fraction(1, 2 ** rng.choice([30, 34, 37, 40])) if mode == "variance" else Fraction(1, 2 ** 20)
+        elif mode == "coefficient" and small in pa:
+            mean[1 + pa.index(small)] = Fraction(1, 2 ** 12)
+        cpds.append([v, [jf(x) for x in mean], jf(var), pa])
+    return {"kind": "tiny", "n": n, "nodes": nodes, "edges": [list(e) for e in edges], "style": rng.choice(["str", "int"]),
+            "nameseed": rng.randint(0, 10**9), "cpds": cpds, "add_order": list(range(n)), "dummy": None, "small": small,
+            "mode": mode}
+
+
+def run_tiny(case, drv):
+    """pgmpy must report EXACTLY what the as-coded model reports (the exact joint rounded to 8 decimals); where that
+    differs from the exact joint by more than 1e-9 of the entry's own unit (sqrt(S_ii S_jj) for a covariance, sqrt(S_ii)
+    or |mu_i| for a mean) the case is an instance of the known finding; any other deviation is an unlisted violation."""
+    import numpy as np
+    import pandas as pd
+    import networkx as nx
+    m, names, objs = build_lgbn(case)
+    n = case["n"]
+    idx = {repr(nm): i for i, nm in enumerate(names)}
+    for v in case["add_order"]:
+        m.add_cpds(objs[v])
+    mc = model_cpds(case, case["add_order"])
+    order = [idx[repr(x)] for x in nx.topological_sort(m)]
+    mu, cov = m.to_joint_gaussian()
+    cmu, ccov = drv.call("c20_joint", [True, mc, order])          # as coded
+    emu, ecov = drv.call("c20_joint", [False, mc, order])         # exact
+    cmu, ccov, emu, ecov = fvec(cmu), fmat(ccov), fvec(emu), fmat(ecov)
+    xmu, xS = exact_joint(case, order)
+    if emu != [xmu[v] for v in order] or ecov != [[xS[(v, w)] for w in order] for v in order]:
+        return bad("model!=spec:joint-exact", {"order": order})
+    key = common.canon_key(["tiny", n, case["nodes"], sorted(map(tuple, case["edges"])), case["cpds"], case["style"]])
+    tags = ["tiny n=%d" % n, "tiny:" + case["mode"]]
+    det = {"order": order, "impl_mu": mu.tolist(), "impl_cov": cov.tolist(), "as_coded_cov": tofl(ccov), "exact_cov": tofl(ecov)}
+    for i in range(n):
+        if abs(float(mu[i]) - float(cmu[i])) > 1e-10 * max(1.0, abs(float(cmu[i]))):
+            return bad("impl!=model:to_joint_gaussian", det)
+        for j in range(n):
+            if abs(float(cov[i][j]) - float(ccov[i][j])) > 1e-10 * max(1.0, abs(float(ccov[i][j]))):
+                return bad("impl!=model:to_joint_gaussian", det)
+    lost = []
+    for i in range(n):
+        um = max(math.sqrt(float(ecov[i][i])), abs(float(emu[i])))
+        if abs(float(cmu[i] - emu[i])) > 1e-9 * um:
+            lost.append(["mean", order[i]])
+        for j in range(n):
+            uc = math.sqrt(float(ecov[i][i]) * float(ecov[j][j]))
+            if abs(float(ccov[i][j] - ecov[i][j])) > 1e-9 * uc:
+                lost.append(["cov", order[i], order[j]])
+    # predict on the as-coded (rounded) joint: pgmpy and the as-coded model fail or succeed together
+    if n >= 2:
+        S = [case["small"]] if case["small"] != order[0] else [order[-1]]
+        obs = [v for v in range(n) if v not in S]
+        vals = [[Fraction(1, 2)] * len(obs)]
+        df = pd.DataFrame([[0.5] * len(obs)], columns=pd.Index([names[v] for v in obs], dtype=object))
+        try:
+            pv, pmu, pcov = m.predict(df)
+            perr = None
+        except np.linalg.LinAlgError:
+            perr = "singular"
+        st, r = drv.call_e("c20_predict", [True, mc, order, S, obs, vals])
+        if (perr is None) != (st == "ok"):
+            # numpy may invert a numerically singular block that is exactly singular for the model only when the
+            # block is exactly singular; the rounded blocks here are exact in floats, so the two must agree
+            return bad("impl!=model:predict-singularity", dict(det, impl_error=perr, model=[st, r if st != "ok" else "ok"]))
+        if perr:
+            tags.append("tiny:predict-LinAlgError")
+    if lost:
+        return bad("impl!=spec:joint-rounded", dict(det, lost_entries=lost[:6]), finding=FINDING_ROUNDING,
+                   nontrivial=True, key=key, tags=tags + ["known:joint-gaussian-rounded-8-decimals"])
+    return ok(nontrivial=True, key=key, tags=tags + ["tiny:rounding-harmless"])
 
 
 # ------------------------------------------------------------------ sessions on ONE network object
@@ -1942,6 +2067,8 @@ def run_case(case, drv):
         return run_seq(case, drv)
     if k == "session":
         return run_session(case, drv)
+    if k == "tiny":
+        return run_tiny(case, drv)
     if k == "gaussmag":
         return run_gaussmag(case, drv)
     if k == "lgbn":
